@@ -430,6 +430,15 @@ public:
    /// Gets column vector of column with identifier \p id.
    void getColVectorUnscaled(const SPxColId& id, DSVectorBase<R>& vec) const;
 
+   /// Returns unscaled coefficient in row \p row and column \p col.
+   R coefUnscaled(int row, int col) const
+   {
+      if(_isScaled)
+         return lp_scaler->getCoefUnscaled(*this, row, col);
+      else
+         return colVector(col)[row];
+   }
+
    /// Gets unscaled objective vector.
    void getObjUnscaled(VectorBase<R>& pobj) const;
 
